@@ -6,6 +6,7 @@ import (
 	"net/netip"
 	"time"
 
+	"github.com/IrineSistiana/mosproxy/internal/dnsmsg"
 	"github.com/IrineSistiana/mosproxy/internal/limiter"
 	"github.com/IrineSistiana/mosproxy/internal/verifrt"
 	"github.com/quic-go/quic-go"
@@ -167,5 +168,46 @@ func VerifH_C15_GlobalRefusalChargesNobody() {
 	}
 	for _, c := range gCalls {
 		verifrt.Assert(c.n == n, "the shared budget is charged the same cost")
+	}
+}
+
+// VerifH_C15_ChargesArePositive: the budget bound "burst + rate x window" only holds if the limiter is never used to ADD
+// tokens: every cost handed to it is positive, whatever becomes of the query — answered from the upstream, from the
+// cache, rejected by a rule, or failed (upstream error / time-out). Through the request handler with a recording
+// limiter stub (arbitrary verdicts) and an upstream that answers or fails: every charge names the client and has n > 0.
+func VerifH_C15_ChargesArePositive() {
+	verifrt.Unwind(200)
+	verifrt.CtxNoExpiry = true
+	up := &vFlakyUpstream{}
+	var charges []vCharge
+	verifrt.Redirect("(*github.com/IrineSistiana/mosproxy/internal/limiter.ClientLimiter).AllowN",
+		func(cl *limiter.ClientLimiter, addr netip.Addr, now time.Time, n int) bool {
+			charges = append(charges, vCharge{addr, n})
+			return verifrt.Bool("limiter.allow")
+		})
+	var rules []*rule
+	if verifrt.Bool("reject-rule") {
+		rules = append(rules, &rule{reject: 5})
+	} else {
+		rules = append(rules, &rule{upstream: &upstreamWrapper{tag: "up", u: up}})
+	}
+	r := vRouter(rules, verifrt.Bool("cache"))
+	r.limiter = &resourceLimiter{cl: &limiter.ClientLimiter{}}
+	client := netip.AddrPortFrom(netip.AddrFrom4([4]byte{198, 51, 100, 7}), 999)
+	for i := 0; i < 2; i++ {
+		m := dnsmsg.NewMsg()
+		m.Header.ID, m.Header.RecursionDesired = uint16(i+1), true
+		q := dnsmsg.NewQuestion()
+		q.Name, q.Type, q.Class = dnsmsg.Name([]byte{1, 'q'}), 1, 1
+		m.Questions = append(m.Questions, q)
+		rc := getRequestContext()
+		rc.RemoteAddr = client
+		r.handleServerReq(m, rc)
+		verifrt.Assert(rc.Response.Msg != nil, "answered")
+	}
+	verifrt.Reach("handled")
+	for _, c := range charges {
+		verifrt.Assert(c.n > 0, "every cost handed to the limiter is positive: it is never used to give tokens back")
+		verifrt.Assert(c.addr == client.Addr(), "and is charged to the client")
 	}
 }
